@@ -136,7 +136,7 @@ func NewWorldOpts(n int, seed []byte, o WorldOpts) *World {
 	w.Outsider = mk("outsider")
 	w.Accounts = []kit.Account{w.Users[0], w.Users[1], w.Rels[0], w.Rels[1], w.TSS, w.Outsider}
 	for i := 0; i < n; i++ {
-		c := kit.NewChain(fmt.Sprintf("teleport_%d-1", 9000+i), kit.ChainOpts{Seed: append([]byte{byte('A' + i)}, seed...), Accounts: w.Accounts, GenesisMutator: o.GenesisMutator, ExtraCoins: o.ExtraCoins, NodeConfig: o.NodeConfig})
+		c := kit.NewChain(fmt.Sprintf("teleport_%d-1", 9000+i), kit.ChainOpts{Seed: append([]byte{byte('A' + i)}, seed...), Accounts: w.Accounts, GenesisMutator: o.GenesisMutator, ExtraCoins: o.ExtraCoins, NodeConfig: o.NodeConfig, BalanceCoins: 1000})
 		if o.OnChain != nil {
 			o.OnChain(c)
 		}
